@@ -247,7 +247,8 @@ pub fn run_case(c: &Value) -> Value {
     let pend = c["pend"].as_bool().unwrap_or(false);
     let chunks = split(&stream, &cuts);
     let nchunks = chunks.len();
-    let big = stream.len() > 300 || c.get("exp_digest").is_some();
+    // large generated streams carry the generator's expectation (digest); everything else is judged byte by byte by TLC
+    let big = c.get("exp_digest").is_some();
     if mode == "connect" {
         let (res, version, reads, hang) = if flavour == "sync" {
             let mut rd = Chunks::new(chunks, false);
